@@ -144,6 +144,10 @@ func ExportPrivateKey(keyPath string, passphrase []byte) ([]byte, error) {
 	}
 
 	// Decrypt the private key
+	if len(data.Nonce) != gcm.NonceSize() {
+		return nil, fmt.Errorf("invalid nonce length in key file: %d", len(data.Nonce))
+	}
+
 	privKeyBytes, err := gcm.Open(nil, data.Nonce, data.PrivKeyEncrypted, nil)
 	if err != nil {
 		return nil, fmt.Errorf("failed to decrypt private key (wrong passphrase): %w", err)
@@ -350,6 +354,10 @@ func (s *FileSystemSigner) loadKeys(passphrase []byte) error {
 	}
 
 	// Decrypt the private key
+	if len(data.Nonce) != gcm.NonceSize() {
+		return fmt.Errorf("invalid nonce length in key file: %d", len(data.Nonce))
+	}
+
 	privKeyBytes, err := gcm.Open(nil, data.Nonce, data.PrivKeyEncrypted, nil)
 	if err != nil {
 		return fmt.Errorf("failed to decrypt private key (wrong passphrase?): %w", err)
